@@ -44,6 +44,7 @@ type c02Src struct {
 	f                     float64 // for float sources (float32 widened exactly)
 	isF                   bool
 	rat                   *big.Rat // for string sources
+	garbage               bool     // string with bytes that occur in no numeric syntax
 	str                   string
 	canonInt, floatSyntax bool
 }
@@ -189,8 +190,14 @@ func (e *c02Env) checkValue(m convAll, src *c02Src) {
 			}
 		default: // string
 			if src.rat == nil {
-				// not a number the model understands: only "no panic" is required
-				continue
+				if !src.garbage {
+					// not a number the model understands: only "no panic" is required
+					continue
+				}
+				// bytes that occur in no numeric syntax at all (invalid UTF-8, NUL, non-ASCII digits, invisible characters):
+				// certainly not a number, every numeric conversion must report an error
+				mustFail = true
+				break
 			}
 			want = roundHalfAway(src.rat)
 			lo, hi := big.NewInt(t.lo), new(big.Int).SetUint64(t.hi)
@@ -416,6 +423,11 @@ func c02StringSrc(s string) *c02Src {
 	if ratParsable.MatchString(s) {
 		if r, ok := new(big.Rat).SetString(s); ok {
 			src.rat = r
+		}
+	}
+	for i := 0; i < len(s); i++ {
+		if s[i] >= 0x80 || s[i] == 0 {
+			src.garbage = src.rat == nil
 		}
 	}
 	src.canonInt = canonIntRe.MatchString(s)
@@ -663,6 +675,7 @@ func runC02(c *core.Ctx) {
 	}
 	for _, s := range []string{"", " 1", "1 ", "+1", "+200", "1e3", "1E3", "0x10", "1.5", "-1.5", "2.5", "0.5", "-0.5", "-0", "00012", "1_000", "NaN", "Inf", "-Inf", "1e400", "-1e400", "1e39",
 		"340282356779733661637539395458142568448", "18446744073709551616", "99999999999999999999999999999999999999999", "-99999999999999999999999999999999999999999",
+		"4\xff2", "-1\xf0\x9f\x9800", "1\x002", "\xff", "12\xff", "\xff12", "\u0967\u0968", "\uff11\uff12", "12\u200b", "1\u00a02", "4\xc3\x282", "\xed\xa0\x8012",
 		"abc", "1.0", "255.0", "256", "-1", "65535", "65536", "4294967295", "4294967296", "3000000000", "200", "128", "127", "-128", "-129", "0.1", "1e-400", "true", "false"} {
 		addS(s)
 	}
@@ -712,7 +725,7 @@ func init() {
 				Rule: "exact-arithmetic oracle (sign+magnitude / math/big): exhaustive over every int8/uint8/int16/uint16 value; for the wide integer types, float32/float64 and numeric strings a boundary set (0, +-1, every power-of-two bound +-3, +-0.25/0.5/0.75, +-1 ulp in float32 and float64, NaN, +-Inf, -0, max/min, subnormals) plus PRNG values biased to bit-length boundaries, plus 64-bit integers and float64 values beside float32/float64 rounding ties (double-rounding traps); each value wrapped by Maybe.Just and JustGenerics[T] and pushed through all 14 numeric conversions and ToBool. " +
 					"Zones per (target, value): must-succeed (raw value inside the target range; portable 32-bit range for int/uint/uintptr), must-fail (rounded value outside the real range, NaN/Inf to an integer, finite float overflowing float32), either; in every zone a nil error requires the exact expected number. distinct_nontrivial = distinct (source type, value, target) with value not in {0,1}",
 				Assumptions: []string{"64-bit platform: the real range of int/uint/uintptr is 64 bits, the must-succeed range is the portable 32-bit one",
-					"strings: canonical decimal integers are in the must-succeed/must-fail zones; other decimal syntaxes only when strconv's float syntax accepts them; strings the model cannot parse are only required not to panic",
+					"strings: canonical decimal integers are in the must-succeed/must-fail zones; other decimal syntaxes only when strconv's float syntax accepts them; strings the model cannot parse are only required not to panic, except strings with bytes that occur in no numeric syntax (invalid UTF-8, NUL, non-ASCII digits, invisible characters), which every numeric conversion must reject",
 					"NaN/+-Inf convert to float targets unchanged"},
 				Exhaustive: true,
 			}
